@@ -55,6 +55,8 @@ struct HotDocument {
 struct TopKCandidate {
     doc_id: u64,
     distance: f32,
+    /// Coherence token of the mirror entry this distance was computed from.
+    coherence: VectorCoherenceToken,
 }
 
 impl Eq for TopKCandidate {}
@@ -450,6 +452,22 @@ impl HotTier {
         k: usize,
         cancelled: Option<&AtomicBool>,
     ) -> Vec<(u64, f32)> {
+        self.knn_search_with_coherence(query, k, cancelled)
+            .into_iter()
+            .map(|(doc_id, distance, _coherence)| (doc_id, distance))
+            .collect()
+    }
+
+    /// k-NN search that also reports, per hit, the coherence token of the mirror entry the
+    /// distance was computed from. Callers that validate hits against canonical state after
+    /// the scan need it: the mirror entry can be replaced between the scan and the check,
+    /// and a distance of the replaced version must not be paired with the new one.
+    pub fn knn_search_with_coherence(
+        &self,
+        query: &[f32],
+        k: usize,
+        cancelled: Option<&AtomicBool>,
+    ) -> Vec<(u64, f32, VectorCoherenceToken)> {
         if k == 0 {
             return Vec::new();
         }
@@ -511,6 +529,7 @@ impl HotTier {
                 top_heap.push(TopKCandidate {
                     doc_id: *doc_id,
                     distance,
+                    coherence: doc.coherence,
                 });
                 continue;
             }
@@ -518,6 +537,7 @@ impl HotTier {
             let candidate = TopKCandidate {
                 doc_id: *doc_id,
                 distance,
+                coherence: doc.coherence,
             };
             if let Some(worst) = top_heap.peek().copied() {
                 if candidate < worst {
@@ -529,7 +549,7 @@ impl HotTier {
 
         let mut top = Vec::with_capacity(top_heap.len());
         while let Some(item) = top_heap.pop() {
-            top.push((item.doc_id, item.distance));
+            top.push((item.doc_id, item.distance, item.coherence));
         }
         top.sort_by(|a, b| a.1.total_cmp(&b.1).then_with(|| a.0.cmp(&b.0)));
         top
